@@ -1412,12 +1412,16 @@ def r08j(ctx, rep, rule="R08j"):
                     if truth is None:
                         continue
                     m = re.fullmatch(r"\((Eq|Ne) \*?num::rational::Ratio::<T>::numer\((.*)\) c:0\)", sh)
-                    if not m:
+                    mz = re.fullmatch(r"<num::rational::Ratio<T> as num::Zero>::is_zero\((.*)\)", sh)
+                    if m:
+                        who, is_zero = m.group(2), (truth if m.group(1) == "Eq" else (not truth))
+                    elif mz:
+                        who, is_zero = mz.group(1), truth      # a ratio is zero exactly when its numerator is
+                    else:
                         continue
-                    is_zero = truth if m.group(1) == "Eq" else (not truth)
-                    if re.fullmatch(a1, m.group(2)) and not is_zero:
+                    if re.fullmatch(a1, who) and not is_zero:
                         ok = True
-                    if re.fullmatch(a2, m.group(2)) and is_zero:
+                    if re.fullmatch(a2, who) and is_zero:
                         ok = True
                 if not ok:
                     bad = dec
